@@ -20,7 +20,7 @@ RULE = ("(a) the full grid statistic(14) x shapes with 1..4 axes and lengths 0..
         "duplicate / empty / unknown sample lists, sample files with odd lines, projection bounds; mutated VCF, BGZF "
         "and BCF bytes (bit flips, truncations, splices - fuzz-style support only: noodles is not modelled). Every "
         "run must exit 0 or non-zero with a diagnostic on stderr; exit 101 / 'panicked at' / a signal is a failure. "
-        "non-trivial = a degenerate shape, an out-of-bounds option or a mutated input")
+        "non-trivial = a degenerate shape, an out-of-bounds option or a mutated input; text headers with non-ASCII numeric characters of 2-4 bytes before, inside and after the shape")
 
 
 def fmt(l):
@@ -128,6 +128,12 @@ def check(rep, tier, seed):
         for vals in ("", "1", "1 2", "nan", "1e999 -1e999", "x", "1 2 3 4"):
             inputs.append(("#SHAPE=<%s>\n%s\n" % (hdr, vals)).encode())
     inputs += [b"#SHAPE=<2>\n1 2", b"#SHAPE=<2>", b"#SHAPE=<2>\n\n\n", b"#SHAPE=<2>\r\n1 2\r\n", b"#SHAPE=<2>\n1\t2\n", b"#SHAPE=<2>\n1 \xff\n", b"#SHAPE=<\xc2\xb2>\n1 2\n"]
+    # text headers with non-ASCII characters that Unicode counts as numeric (2, 3 and 4 bytes long: superscripts, fractions,
+    # Arabic-Indic and mathematical digits, Roman numerals) before, inside and after the shape, and non-numeric ones
+    for line in ["#SHAPE=<3/\u0663>", "#SHAPE=<3>\u00b2", "#SHAPE\u00b2=<3>", "#SHAPE=<\u0663/3>", "#SHAPE=<3>\u00bd", "#SHAPE=<3>\u2167", "#SHAPE=<3\U0001d7d9>",
+                 "#SHAPE=<\U0001d7d9>", "#SHAPE=<3>\u2460 ", "#SHAPE=<3>\u00e9", "#SHAPE\u00e9=<3>", "#SHAPE=<3\u00e9>", "#SHAPE=<1\u00e92>", "#SHAPE=<\u0969>", "#SHAPE=<3>\u3007"]:
+        for vals in ("1 2 3", "1 2 \u0663", ""):
+            inputs.append(("%s\n%s\n" % (line, vals)).encode("utf-8"))
     # npy headers whose string values are unusual: wrong lengths, non-ASCII (valid UTF-8 of 2-4 bytes per character) in the
     # descr / key / value positions, in every header version
     import struct as _st
